@@ -848,6 +848,9 @@ def evaluate(case):  # pylint: disable=too-many-locals,too-many-branches,too-man
                     'model': _short(model), 'first': composed.hex()[:400],
                     'second': None if again is None else again.hex()[:400],
                     'error': None if error is None else repr(error)[:300]}))
+    # -- compose direction, object built with default arguments after another default-built one was edited ---------
+    if not findings and kind in ('client_hello', 'server_hello') and not model['extensions']:
+        findings.extend(_defaults_history(model, kind, expected, locus))
     # -- compose direction, object reached by an in-place edit ---------------------------------------------------
     if not findings and not hints(model):
         findings.extend(_edited_compose(model, locus))
@@ -859,6 +862,38 @@ def evaluate(case):  # pylint: disable=too-many-locals,too-many-branches,too-man
                 'composed': None if composed is None else composed.hex()[:400],
                 'error': None if error is None else repr(error)[:300]}))
     return findings, {'wire': wire, 'classes': classes}
+
+
+def _defaults_history(model, kind, expected, locus):
+    """Two hellos built without an `extensions` argument; an extension is appended to the first one's (default) list.
+    The second one carries the field values of the model - no extensions - and must compose to their encoding."""
+    L = lib()
+    cls = L.S.TlsHandshakeClientHello if kind == 'client_hello' else L.S.TlsHandshakeServerHello
+    side = 'client' if kind == 'client_hello' else 'server'
+
+    def without_extensions():
+        full = build(model)
+        import attr  # pylint: disable=import-outside-toplevel
+        keywords = {field.name.lstrip('_'): getattr(full, field.name) for field in attr.fields(cls)
+                    if field.init and field.name != 'extensions'}
+        return cls(**keywords)
+    first, error = _call(without_extensions)
+    if error is not None:
+        return []
+    extra = build_extension({'ext': 'renegotiation_info', 'renegotiated_connection': 'aabb'}, side)
+    _done, error = _call(lambda: first.extensions.append(extra))
+    if error is not None:
+        return []
+    second, error = _call(without_extensions)
+    if error is not None:
+        return []
+    composed, error = _call(lambda: bytes(second.compose()))
+    if error is not None or composed not in expected:
+        return [Finding('defaults-shared:extensions/%s' % locus, {
+            'what': 'a hello built without an extensions argument composes the extensions appended to an earlier one',
+            'composed': None if composed is None else composed.hex()[:400], 'expected': expected[0].hex()[:400],
+            'error': None if error is None else repr(error)[:200]})]
+    return []
 
 
 def _grow(hexed):
